@@ -42,7 +42,8 @@ REQUIRED_THEOREMS = ["accept_at_most_once", "recorded_at_most_once", "forged_nev
                      "short_ciphertext_never_accepted", "short_ciphertext_no_trace", "accept_at_most_once_dgram",
                      "notification_fresh_piv", "observe_response_fresh_piv", "forged_request_no_association",
                      "client_association_never_responds", "own_piv_strictly_increasing", "own_nonce_never_reused",
-                     "response_nonce_is_peers", "accept_at_most_once_across_restarts", "nothing_below_echo_request"]
+                     "response_nonce_is_peers", "accept_at_most_once_across_restarts", "nothing_below_echo_request",
+                     "request_nonce_used_at_most_once", "request_nonce_used_at_most_once_per_life", "nonce_never_reused"]
 RULE = ("recipient: histories of <= 30 protected messages delivered through coap_oscore_decrypt_pdu to ONE fresh recipient context: "
         "requests (authentic with/without/with wrong Echo, forged with any claimed Partial IV) and, interleaved, responses to an "
         "Observe registration of that endpoint (authentic notifications carrying the peer's sequence number as Partial IV, forged "
@@ -318,15 +319,14 @@ def gen_endp(rng, maxlen=26):
     sequence number, tokens re-used, with / without / with a stale Echo value, re-delivered inside one life of the
     endpoint), forged requests, the endpoint's own requests — their tokens drawn from the SAME small set as those of the
     requests it receives —, responses (without Observe / notifications / OSCORE_SEND_PARTIAL_IV), the save callback
-    (ssn_freq 0..100), crashes and restarts from the stored value, sequence numbers next to 2^40-1.  The application
-    never answers a token whose only request was dropped for a stale Echo value (it was never given that request)."""
+    (ssn_freq 0..100), crashes and restarts from the stored value, sequence numbers next to 2^40-1.  Responses go out for
+    ANY token, also for one whose only request was caught by the Appendix B.1.2 trap (wrong Echo value, challenge that
+    could not be protected: such a request must leave no association — round R15c — so these are `err`)."""
     w = rng.choice([32, 32, rng.randint(1, 63), 64])
     b12 = rng.choice([0, 1, 1])
     f = rng.choice([1, 1, 2, 3, 5, 9, 0, 100, 2 ** 32 - 1])
     near = rng.random() < 0.12
     start = SEQ_LIMIT - rng.randint(0, 6) if near else rng.choice([0, 0, 0, 1, rng.randint(0, 50)])
-    if near:
-        b12 = 0                  # a challenge that cannot be protected leaves the association of an unverified request
     ntok = rng.choice([1, 2, 2, 3, 4])
     seq = rng.choice([0, 0, 1, 7, rng.randint(0, 300), 2 ** 24 - 2, SEQ_LIMIT - 40])
     synced = not b12
@@ -340,10 +340,6 @@ def gen_endp(rng, maxlen=26):
             ops.append("%s%d.%d" % (k, t, seq))
             if k in "eE":
                 synced = True
-            if k == "w" and not synced:
-                dirty.add(t)
-            elif synced:
-                dirty.discard(t)
             if k in "go" or synced:
                 epoch.append(ops[-1])
             seq += rng.choice([1, 1, 1, 1, 2, 3, rng.randint(1, 70)])
@@ -353,8 +349,6 @@ def gen_endp(rng, maxlen=26):
             d = rng.choice(old)                              # a datagram of an EARLIER life arrives again (Appendix B.1.2 on:
             if d[0] in "eE":                                 # it must never be accepted; its Echo value is stale by now)
                 d = "w" + d[1:]
-            if d[0] == "w" and not synced:
-                dirty.add(int(d[1:].split(".")[0]))
             ops.append(d)
         elif c < 0.34 and epoch:
             ops.append(rng.choice(epoch))                    # the network delivers a datagram of this life again
